@@ -116,7 +116,7 @@ def rand_typed(rng):
             p = rng.choice([x for x in tids if x < t])
         if p is None:
             continue
-        if t >= 6 and rng.random() < 0.1:
+        if t >= 6 and rng.random() < 0.25:
             isolated.add(t)
             continue
         refs.append([p, t, HST])
@@ -131,6 +131,13 @@ def rand_typed(rng):
     for _ in range(rng.randint(2, 16)):
         a, b = rng.sample(inst, 2)
         irefs.append([a, b, rng.choice(tids)])
+    for t in sorted(isolated):
+        # a type outside the subtype hierarchy that is nevertheless an end point of some (non-HasSubtype) reference:
+        # it has its reflexive pair, so the selectors must work for it (unlike the types of finding D-C12a)
+        if rng.random() < 0.6:
+            other = rng.choice(inst)
+            ty = rng.choice([x for x in tids if x != HST])
+            irefs.append([t, other, ty] if rng.random() < 0.5 else [other, t, ty])
     if rng.random() < 0.4 and irefs:
         irefs.append(list(rng.choice(irefs)))            # duplicate row
     ns = {t: 0 for t in tids}
@@ -170,7 +177,7 @@ def typed_cases(run, graphs):
     for g in graphs:
         allrefs = g["type_refs"] + g["inst_refs"]
         base = {"op": "typing", "hst": HST, "type_refs": allrefs}
-        T = run.rng.choice(g["types"])
+        T = run.rng.choice(g["isolated"]) if g["isolated"] and run.rng.random() < 0.4 else run.rng.choice(g["types"])
         plan.append((g, "subtypes", T)); ops.append(dict(base, what="subtypes", types=[T]))
         plan.append((g, "supertypes", T)); ops.append(dict(base, what="supertypes", types=[T]))
         plan.append((g, "constrain", T)); ops.append(dict(base, what="constrain", inst=g["inst_refs"], types=[T]))
